@@ -476,11 +476,11 @@ func (this *Writer) writeHeader() (err *IOError) {
 		return &IOError{msg: "Cannot write block size to header", code: kanzi.ERR_WRITE_FILE}
 	}
 
-	// this.inputSize not provided or >= 2^48 -> 0, <2^16 -> 1, <2^32 -> 2, <2^48 -> 3
+	// this.inputSize not provided (or negative: not a size) or >= 2^48 -> 0, <2^16 -> 1, <2^32 -> 2, <2^48 -> 3
 	var szMask uint
 
 	switch {
-	case this.inputSize == 0:
+	case this.inputSize <= 0:
 		szMask = 0
 	case this.inputSize >= (int64(1) << 48):
 		szMask = 0
